@@ -1,5 +1,18 @@
 import OmplModel.Model.Copy
 
+/-
+Proofs about the archive part (StateStorage / PlannerDataStorage at record granularity) and the
+`copyStateData` result codes of `OmplModel.Model.Copy`.
+
+A  StateStorage: store/load round trip, marker / signature rejection, every proper record prefix is
+   `.truncated`, and what the real loader has kept by then is a prefix of the stored states.
+B  PlannerData: `std::binary_search` correctness on sorted input (B1), store/load is the identity on graphs
+   satisfying `Graph.WF`, `StartsOK`, `GoalsOK`, `Disjoint` (B2), rejection (B3), truncation (B4), the two
+   witnesses showing that `GoalsOK` (ascending goals) and `Disjoint` cannot be dropped (B5), and preservation
+   of `WF` / `StartsOK` by `addVertex`, `addEdge`, `markStart`.
+C  `csdNames` result code (C1); `csd … = .all ↔ covered D S` (C2, `.all` half only).
+-/
+
 namespace OmplModel.Copy
 
 /-! ## A. StateStorage -/
@@ -501,6 +514,142 @@ theorem load_store_graph_needs_disjoint :
   rw [← h5] at hg
   simp at hg
 
+/-! ### the hypotheses of B2 are maintained by the model's own operations -/
+
+theorem mem_insertEdge (e x : ERec) (l : List ERec) : x ∈ insertEdge e l ↔ x = e ∨ x ∈ l := by
+  induction l with
+  | nil => simp [insertEdge]
+  | cons y ys ih =>
+    simp only [insertEdge]
+    split
+    · simp
+    · simp only [List.mem_cons, ih]
+      constructor
+      · rintro (h | h | h) <;> simp [h]
+      · rintro (h | h | h) <;> simp [h]
+
+theorem insertEdge_sorted (e : ERec) (l : List ERec) (h : l.Pairwise (fun a b => a.src ≤ b.src)) :
+    (insertEdge e l).Pairwise (fun a b => a.src ≤ b.src) := by
+  induction l with
+  | nil => simp [insertEdge]
+  | cons y ys ih =>
+    rw [List.pairwise_cons] at h
+    simp only [insertEdge]
+    split
+    · next hlt =>
+      refine List.Pairwise.cons ?_ (List.Pairwise.cons h.1 h.2)
+      intro a ha
+      rcases List.mem_cons.mp ha with rfl | ha
+      · omega
+      · have := h.1 a ha; omega
+    · next hge =>
+      refine List.Pairwise.cons ?_ (ih h.2)
+      intro a ha
+      rcases (mem_insertEdge e a ys).mp ha with rfl | ha
+      · omega
+      · exact h.1 a ha
+
+theorem insertEdge_nodup (e : ERec) (l : List ERec)
+    (h : l.Pairwise (fun a b => ¬(a.src = b.src ∧ a.dst = b.dst)))
+    (he : ∀ a ∈ l, ¬(a.src = e.src ∧ a.dst = e.dst)) :
+    (insertEdge e l).Pairwise (fun a b => ¬(a.src = b.src ∧ a.dst = b.dst)) := by
+  induction l with
+  | nil => simp [insertEdge]
+  | cons y ys ih =>
+    rw [List.pairwise_cons] at h
+    simp only [insertEdge]
+    split
+    · refine List.Pairwise.cons ?_ (List.Pairwise.cons h.1 h.2)
+      intro a ha hh
+      exact he a ha ⟨hh.1.symm, hh.2.symm⟩
+    · refine List.Pairwise.cons ?_ (ih h.2 (fun a ha => he a (by simp [ha])))
+      intro a ha
+      rcases (mem_insertEdge e a ys).mp ha with rfl | ha
+      · exact he y (by simp)
+      · exact h.1 a ha
+
+theorem WF_addEdge (g : Graph) (e : ERec) (h : g.WF) : (g.addEdge e).1.WF := by
+  unfold Graph.addEdge
+  split
+  · exact h
+  · next hr =>
+    split
+    · exact h
+    · next hex =>
+      simp only [Bool.or_eq_true, decide_eq_true_eq, not_or, Nat.not_le, ge_iff_le] at hr
+      obtain ⟨h1, h2, h3⟩ := h
+      refine ⟨?_, ?_, ?_⟩
+      · intro x hx
+        rcases (mem_insertEdge e x g.edges).mp hx with rfl | hx
+        · exact hr
+        · exact h1 x hx
+      · apply insertEdge_nodup _ _ h2
+        intro a ha hh
+        apply hex
+        simp only [Graph.edgeExists, List.any_eq_true, Bool.and_eq_true, beq_iff_eq]
+        exact ⟨a, ha, hh⟩
+      · exact insertEdge_sorted _ _ h3
+
+theorem WF_addVertex (g : Graph) (v : Vertex) (h : g.WF) : (g.addVertex v).WF := by
+  obtain ⟨h1, h2, h3⟩ := h
+  refine ⟨?_, h2, h3⟩
+  intro e he
+  have := h1 e he
+  simp [Graph.addVertex]; omega
+
+theorem mem_insertSorted (x y : Nat) (l : List Nat) : y ∈ insertSorted x l ↔ y = x ∨ y ∈ l := by
+  induction l with
+  | nil => simp [insertSorted]
+  | cons z zs ih =>
+    simp only [insertSorted]
+    split
+    · simp
+    · simp only [List.mem_cons, ih]
+      constructor
+      · rintro (h | h | h) <;> simp [h]
+      · rintro (h | h | h) <;> simp [h]
+
+theorem insertSorted_sorted (x : Nat) (l : List Nat) (h : l.Pairwise (· < ·)) (hx : x ∉ l) :
+    (insertSorted x l).Pairwise (· < ·) := by
+  induction l with
+  | nil => simp [insertSorted]
+  | cons z zs ih =>
+    rw [List.pairwise_cons] at h
+    have hxz : x ≠ z := fun hh => hx (by simp [hh])
+    simp only [insertSorted]
+    split
+    · refine List.Pairwise.cons ?_ (List.Pairwise.cons h.1 h.2)
+      intro a ha
+      rcases List.mem_cons.mp ha with rfl | ha
+      · omega
+      · have := h.1 a ha; omega
+    · refine List.Pairwise.cons ?_ (ih h.2 (fun hh => hx (by simp [hh])))
+      intro a ha
+      rcases (mem_insertSorted x a zs).mp ha with rfl | ha
+      · omega
+      · exact h.1 a ha
+
+theorem StartsOK_markStart (g : Graph) (i : Nat) (h : StartsOK g) : StartsOK (g.markStart i) := by
+  unfold Graph.markStart
+  split
+  · next hi =>
+    split
+    · exact h
+    · next hns =>
+      have hni : i ∉ g.starts := fun hm => hns ((binSearch_sorted _ _ h.1).mpr hm)
+      refine ⟨insertSorted_sorted _ _ h.1 hni, ?_⟩
+      intro a ha
+      rcases (mem_insertSorted i a g.starts).mp ha with rfl | ha
+      · exact hi
+      · exact h.2 a ha
+  · exact h
+
+theorem StartsOK_addVertex (g : Graph) (v : Vertex) (h : StartsOK g) : StartsOK (g.addVertex v) := by
+  refine ⟨h.1, ?_⟩
+  intro a ha
+  have := h.2 a ha
+  simp [Graph.addVertex]; omega
+
 /-! ## C. copyStateData
 
 ### C1: result code of the overload with a list of names -/
@@ -593,5 +742,398 @@ theorem csdNames_some (destS : Sp) (dest : St) (srcS : Sp) (src : St) (names : L
       constructor
       · intro h; cases h
       · intro h; exact h.elim
+
+
+
+/-! ### C2 -/
+
+mutual
+/-- the state has the compound skeleton of the space (all that the result code depends on) -/
+def skel : Sp → St → Bool
+  | .compound _ cs, .comp sts => skelL cs sts
+  | .compound _ _, _ => false
+  | _, _ => true
+def skelL : List Sp → List St → Bool
+  | [], [] => true
+  | c :: cs, s :: ss => skel c s && skelL cs ss
+  | _, _ => false
+end
+
+mutual
+/-- names of the nodes of the genuine-compound tree (a wrapper is opaque) -/
+def names : Sp → List Nat
+  | .compound nm cs => nm :: namesL cs
+  | .real nm _ => [nm] | .so2 nm => [nm] | .so3 nm => [nm] | .time nm => [nm] | .discrete nm => [nm]
+  | .wrapper nm _ => [nm]
+def namesL : List Sp → List Nat
+  | [] => []
+  | c :: cs => names c ++ namesL cs
+end
+
+mutual
+/-- `P` holds at the node, or the node is a genuine compound all of whose components are covered -/
+def cov (P : Sp → Prop) : Sp → Prop
+  | .compound nm cs => P (.compound nm cs) ∨ covL P cs
+  | .real nm n => P (.real nm n) | .so2 nm => P (.so2 nm) | .so3 nm => P (.so3 nm)
+  | .time nm => P (.time nm) | .discrete nm => P (.discrete nm) | .wrapper nm s => P (.wrapper nm s)
+def covL (P : Sp → Prop) : List Sp → Prop
+  | [] => True
+  | c :: cs => cov P c ∧ covL P cs
+end
+
+def covered (D S : Sp) : Prop := cov (fun S' => S'.name ∈ names D) S
+
+theorem cov_of (P : Sp → Prop) (S : Sp) (h : P S) : cov P S := by
+  cases S <;> simp [cov, h]
+
+mutual
+theorem cov_mono (P P' : Sp → Prop) (h : ∀ S, P S → P' S) : ∀ S, cov P S → cov P' S
+  | .compound nm cs => by
+    intro hc; simp only [cov] at hc ⊢
+    exact hc.imp (h _) (covL_mono P P' h cs)
+  | .real .. => by simpa [cov] using h _
+  | .so2 .. => by simpa [cov] using h _
+  | .so3 .. => by simpa [cov] using h _
+  | .time .. => by simpa [cov] using h _
+  | .discrete .. => by simpa [cov] using h _
+  | .wrapper .. => by simpa [cov] using h _
+theorem covL_mono (P P' : Sp → Prop) (h : ∀ S, P S → P' S) : ∀ cs, covL P cs → covL P' cs
+  | [] => by simp [covL]
+  | c :: cs => by
+    intro hc; simp only [covL] at hc ⊢
+    exact ⟨cov_mono P P' h c hc.1, covL_mono P P' h cs hc.2⟩
+end
+
+theorem skel_noncomp (c : Sp) (x : St) (h : c.children = none) : skel c x = true := by
+  cases c <;> simp [Sp.children] at h <;> simp [skel]
+
+mutual
+theorem skel_copyState : ∀ (c : Sp) (d s : St), skel c d = true → skel c (copyState c d s) = true
+  | .compound nm cs, d, s, h => by
+    cases d with
+    | comp ds =>
+      cases s with
+      | comp ss =>
+        simp only [copyState, skel] at h ⊢
+        exact skelL_copyStateL cs ds ss h
+      | _ => simpa [copyState] using h
+    | _ => simp [skel] at h
+  | .real .., _, _, _ => by simp [skel]
+  | .so2 .., _, _, _ => by simp [skel]
+  | .so3 .., _, _, _ => by simp [skel]
+  | .time .., _, _, _ => by simp [skel]
+  | .discrete .., _, _, _ => by simp [skel]
+  | .wrapper .., _, _, _ => by simp [skel]
+theorem skelL_copyStateL : ∀ (cs : List Sp) (ds ss : List St), skelL cs ds = true →
+    skelL cs (copyStateL cs ds ss) = true
+  | [], ds, ss, h => by simpa [copyStateL] using h
+  | c :: cs, [], ss, h => by simp [skelL] at h
+  | c :: cs, d :: ds, [], h => by simpa [copyStateL] using h
+  | c :: cs, d :: ds, s :: ss, h => by
+    simp only [copyStateL, skelL, Bool.and_eq_true] at h ⊢
+    exact ⟨skel_copyState c d s h.1, skelL_copyStateL cs ds ss h.2⟩
+end
+
+
+/-- the specification of a destination's "if destS is compound" block that the source recursion needs -/
+structure BlkSpec (blk : Sp → St → St → St × CopyRes × Bool) (Q : St → Prop) (B : Sp → Prop) : Prop where
+  pres : ∀ S s d, Q d → skel S s = true → Q (blk S s d).1
+  flag : ∀ S s d, Q d → skel S s = true → ((blk S s d).2.2 = true ↔ B S)
+  code : ∀ S s d, Q d → skel S s = true → (blk S s d).2.1 = .all → (blk S s d).2.2 = true
+
+theorem csdHead_spec (dn : Nat) (cp : St → St → St) (blk : Sp → St → St → St × CopyRes × Bool)
+    (Q : St → Prop) (B : Sp → Prop) (hcp : ∀ d s, Q d → Q (cp d s)) (hb : BlkSpec blk Q B)
+    (S : Sp) (s d : St) (k : St → CopyRes → St × CopyRes) (K : Prop)
+    (hQ : Q d) (hs : skel S s = true)
+    (hk : ∀ d1 r1, Q d1 → r1 ≠ .all → Q (k d1 r1).1 ∧ ((k d1 r1).2 = .all ↔ K)) :
+    Q (csdHead dn cp blk S s d k).1 ∧
+      ((csdHead dn cp blk S s d k).2 = .all ↔ (dn = S.name ∨ B S) ∨ K) := by
+  unfold csdHead
+  by_cases h1 : dn = S.name
+  · simp [h1, hcp d s hQ]
+  · simp only [h1, if_false, false_or]
+    have hp := hb.pres S s d hQ hs
+    have hf := hb.flag S s d hQ hs
+    have hc := hb.code S s d hQ hs
+    by_cases h2 : (blk S s d).2.2 = true
+    · simp [h2, hp, hf.mp h2]
+    · have hnB : ¬ B S := fun h => h2 (hf.mpr h)
+      have hna : (blk S s d).2.1 ≠ .all := fun h => h2 (hc h)
+      have := hk _ _ hp hna
+      simp only [h2]
+      simp [hnB, this]
+
+mutual
+theorem csdS_spec (dn : Nat) (cp : St → St → St) (blk : Sp → St → St → St × CopyRes × Bool)
+    (Q : St → Prop) (B : Sp → Prop) (hcp : ∀ d s, Q d → Q (cp d s)) (hb : BlkSpec blk Q B) :
+    ∀ (S : Sp) (s d : St), Q d → skel S s = true →
+      Q (csdS dn cp blk S s d).1 ∧
+        ((csdS dn cp blk S s d).2 = .all ↔ cov (fun S' => dn = S'.name ∨ B S') S)
+  | .compound nm scs, s, d, hQ, hs => by
+    unfold csdS
+    simp only [cov]
+    apply csdHead_spec dn cp blk Q B hcp hb _ s d _ _ hQ hs
+    intro d1 r1 hQ1 hr1
+    cases s with
+    | comp ss =>
+      simp only [skel] at hs
+      have := csdSL_spec dn cp blk Q B hcp hb scs ss d1 hQ1 hs
+      simp only [St.children]
+      refine ⟨this.1, ?_⟩
+      rw [← this.2.2]
+      by_cases hc : (csdSL dn cp blk scs ss d1).2.1 = scs.length
+      · simp [hc]
+      · simp only [hc, if_false, iff_false]
+        by_cases hfl : (csdSL dn cp blk scs ss d1).2.2 = true <;> simp [hfl, hr1]
+    | _ => simp [skel] at hs
+  | .real .., s, d, hQ, hs => by
+    unfold csdS; simp only [cov]
+    have := csdHead_spec dn cp blk Q B hcp hb _ s d (fun d1 res1 => (d1, res1)) False hQ hs
+      (by intro d1 r1 h1 h2; simp [h1, h2])
+    simpa using this
+  | .so2 .., s, d, hQ, hs => by
+    unfold csdS; simp only [cov]
+    have := csdHead_spec dn cp blk Q B hcp hb _ s d (fun d1 res1 => (d1, res1)) False hQ hs
+      (by intro d1 r1 h1 h2; simp [h1, h2])
+    simpa using this
+  | .so3 .., s, d, hQ, hs => by
+    unfold csdS; simp only [cov]
+    have := csdHead_spec dn cp blk Q B hcp hb _ s d (fun d1 res1 => (d1, res1)) False hQ hs
+      (by intro d1 r1 h1 h2; simp [h1, h2])
+    simpa using this
+  | .time .., s, d, hQ, hs => by
+    unfold csdS; simp only [cov]
+    have := csdHead_spec dn cp blk Q B hcp hb _ s d (fun d1 res1 => (d1, res1)) False hQ hs
+      (by intro d1 r1 h1 h2; simp [h1, h2])
+    simpa using this
+  | .discrete .., s, d, hQ, hs => by
+    unfold csdS; simp only [cov]
+    have := csdHead_spec dn cp blk Q B hcp hb _ s d (fun d1 res1 => (d1, res1)) False hQ hs
+      (by intro d1 r1 h1 h2; simp [h1, h2])
+    simpa using this
+  | .wrapper .., s, d, hQ, hs => by
+    unfold csdS; simp only [cov]
+    have := csdHead_spec dn cp blk Q B hcp hb _ s d (fun d1 res1 => (d1, res1)) False hQ hs
+      (by intro d1 r1 h1 h2; simp [h1, h2])
+    simpa using this
+theorem csdSL_spec (dn : Nat) (cp : St → St → St) (blk : Sp → St → St → St × CopyRes × Bool)
+    (Q : St → Prop) (B : Sp → Prop) (hcp : ∀ d s, Q d → Q (cp d s)) (hb : BlkSpec blk Q B) :
+    ∀ (scs : List Sp) (ss : List St) (d : St), Q d → skelL scs ss = true →
+      Q (csdSL dn cp blk scs ss d).1 ∧ (csdSL dn cp blk scs ss d).2.1 ≤ scs.length ∧
+        ((csdSL dn cp blk scs ss d).2.1 = scs.length ↔ covL (fun S' => dn = S'.name ∨ B S') scs)
+  | [], ss, d, hQ, hs => by
+    unfold csdSL; simp [covL, hQ]
+  | c :: cs, [], d, hQ, hs => by simp [skelL] at hs
+  | c :: cs, s :: ss, d, hQ, hs => by
+    simp only [skelL, Bool.and_eq_true] at hs
+    have h1 := csdS_spec dn cp blk Q B hcp hb c s d hQ hs.1
+    have h2 := csdSL_spec dn cp blk Q B hcp hb cs ss (csdS dn cp blk c s d).1 h1.1 hs.2
+    unfold csdSL
+    simp only [covL, List.length_cons]
+    refine ⟨h2.1, ?_, ?_⟩
+    · split <;> omega
+    · rw [← h1.2, ← h2.2.2]
+      have := h2.2.1
+      by_cases hc : (csdS dn cp blk c s d).2 = .all
+      · simp only [hc, if_true, true_and]; omega
+      · simp only [hc, if_false, false_and, iff_false]; omega
+end
+
+
+mutual
+theorem cov_bind (P P' : Sp → Prop) (h : ∀ S, P S → cov P' S) : ∀ S, cov P S → cov P' S
+  | .compound nm cs => by
+    intro hc; simp only [cov] at hc
+    rcases hc with hc | hc
+    · exact h _ hc
+    · simp only [cov]; exact Or.inr (covL_bind P P' h cs hc)
+  | .real .. => by intro hc; exact h _ (by simpa [cov] using hc)
+  | .so2 .. => by intro hc; exact h _ (by simpa [cov] using hc)
+  | .so3 .. => by intro hc; exact h _ (by simpa [cov] using hc)
+  | .time .. => by intro hc; exact h _ (by simpa [cov] using hc)
+  | .discrete .. => by intro hc; exact h _ (by simpa [cov] using hc)
+  | .wrapper .. => by intro hc; exact h _ (by simpa [cov] using hc)
+theorem covL_bind (P P' : Sp → Prop) (h : ∀ S, P S → cov P' S) : ∀ cs, covL P cs → covL P' cs
+  | [] => by simp [covL]
+  | c :: cs => by
+    intro hc; simp only [covL] at hc ⊢
+    exact ⟨cov_bind P P' h c hc.1, covL_bind P P' h cs hc.2⟩
+end
+
+theorem mem_namesL (n : Nat) (cs : List Sp) : n ∈ namesL cs ↔ ∃ c ∈ cs, n ∈ names c := by
+  induction cs with
+  | nil => simp [namesL]
+  | cons c cs ih => simp [namesL, ih]
+
+theorem name_mem_names (D : Sp) : D.name ∈ names D := by
+  cases D <;> simp [names, Sp.name]
+
+/-- some component of the (genuine compound) destination covers the source -/
+def BD (D S : Sp) : Prop := ∃ c ∈ D.children.getD [], covered c S
+
+theorem mem_names_iff (D : Sp) (n : Nat) :
+    n ∈ names D ↔ n = D.name ∨ ∃ c ∈ D.children.getD [], n ∈ names c := by
+  cases D <;> simp [names, Sp.name, Sp.children, mem_namesL]
+
+theorem cov_bridge (D S : Sp) : cov (fun S' => D.name = S'.name ∨ BD D S') S ↔ covered D S := by
+  constructor
+  · apply cov_bind
+    intro S' h
+    rcases h with h | ⟨c, hc, hcov⟩
+    · apply cov_of; rw [← h]; exact name_mem_names D
+    · apply cov_mono _ _ _ S' hcov
+      intro S'' h''
+      exact (mem_names_iff D _).mpr (Or.inr ⟨c, hc, h''⟩)
+  · apply cov_bind
+    intro S' h
+    apply cov_of
+    rcases (mem_names_iff D _).mp h with h | ⟨c, hc, hn⟩
+    · exact Or.inl h.symm
+    · exact Or.inr ⟨c, hc, cov_of _ _ hn⟩
+
+theorem findChild_some (cs : List Sp) (nm : Nat) : ∀ (i j : Nat), findChild cs nm i = some j →
+    ∃ c ∈ cs, c.name = nm := by
+  induction cs with
+  | nil => intro i j h; simp [findChild] at h
+  | cons c cs ih =>
+    intro i j h
+    simp only [findChild] at h
+    by_cases hc : c.name = nm
+    · exact ⟨c, by simp, hc⟩
+    · simp only [hc, if_false] at h
+      obtain ⟨c', h1, h2⟩ := ih _ _ h
+      exact ⟨c', by simp [h1], h2⟩
+
+theorem skelL_set_copy (s : St) : ∀ (cs : List Sp) (ds : List St) (i : Nat), skelL cs ds = true →
+    skelL cs (ds.set i (copyState (cs.getD i default) (ds.getD i default) s)) = true
+  | [], ds, i, h => by cases ds <;> simp_all [skelL]
+  | c :: cs, [], i, h => by simp [skelL] at h
+  | c :: cs, d :: ds, 0, h => by
+    simp only [skelL, Bool.and_eq_true, List.set_cons_zero, List.getD_cons_zero] at h ⊢
+    exact ⟨skel_copyState c d s h.1, h.2⟩
+  | c :: cs, d :: ds, i + 1, h => by
+    simp only [skelL, Bool.and_eq_true, List.set_cons_succ, List.getD_cons_succ] at h ⊢
+    exact ⟨h.1, skelL_set_copy s cs ds i h.2⟩
+
+mutual
+theorem csdBlk_spec : ∀ (D : Sp), BlkSpec (csdBlk D) (fun d => skel D d = true) (BD D)
+  | .compound nm dcs => by
+    constructor
+    · intro S s d hQ hs
+      cases d with
+      | comp ds =>
+        simp only [skel] at hQ
+        simp only [csdBlk, St.children]
+        split
+        · simp only [skel]; exact skelL_set_copy s dcs ds _ hQ
+        · simp only [skel]; exact (csdDL_spec dcs S s ds hQ hs).1
+      | _ => simp [skel] at hQ
+    · intro S s d hQ hs
+      cases d with
+      | comp ds =>
+        simp only [skel] at hQ
+        simp only [csdBlk, St.children, BD, Sp.children, Option.getD_some]
+        split
+        · next i hi =>
+          obtain ⟨c, hc, hn⟩ := findChild_some _ _ _ _ hi
+          simp only [true_iff]
+          exact ⟨c, hc, cov_of _ _ (by rw [← hn]; exact name_mem_names c)⟩
+        · exact (csdDL_spec dcs S s ds hQ hs).2.1
+      | _ => simp [skel] at hQ
+    · intro S s d hQ hs
+      cases d with
+      | comp ds =>
+        simp only [skel] at hQ
+        simp only [csdBlk, St.children]
+        split
+        · simp
+        · exact (csdDL_spec dcs S s ds hQ hs).2.2
+      | _ => simp [skel] at hQ
+  | .real .. => by constructor <;> simp [csdBlk, BD, Sp.children, skel]
+  | .so2 .. => by constructor <;> simp [csdBlk, BD, Sp.children, skel]
+  | .so3 .. => by constructor <;> simp [csdBlk, BD, Sp.children, skel]
+  | .time .. => by constructor <;> simp [csdBlk, BD, Sp.children, skel]
+  | .discrete .. => by constructor <;> simp [csdBlk, BD, Sp.children, skel]
+  | .wrapper .. => by constructor <;> simp [csdBlk, BD, Sp.children, skel]
+theorem csdDL_spec : ∀ (dcs : List Sp) (S : Sp) (s : St) (ds : List St),
+    skelL dcs ds = true → skel S s = true →
+      skelL dcs (csdDL dcs S s ds).1 = true ∧
+      ((csdDL dcs S s ds).2.2 = true ↔ ∃ c ∈ dcs, covered c S) ∧
+      ((csdDL dcs S s ds).2.1 = .all → (csdDL dcs S s ds).2.2 = true)
+  | [], S, s, ds, hd, hs => by
+    unfold csdDL; simp [hd]
+  | c :: cs, S, s, [], hd, hs => by simp [skelL] at hd
+  | c :: cs, S, s, d :: ds, hd, hs => by
+    simp only [skelL, Bool.and_eq_true] at hd
+    have h1 := csdS_spec c.name (copyState c) (csdBlk c) (fun d => skel c d = true) (BD c)
+      (fun d s h => skel_copyState c d s h) (csdBlk_spec c) S s d hd.1 hs
+    rw [cov_bridge] at h1
+    have h2 := csdDL_spec cs S s ds hd.2 hs
+    unfold csdDL
+    by_cases hall : (csdS c.name (copyState c) (csdBlk c) S s d).2 = .all
+    · simp only [hall, if_true, skelL, Bool.and_eq_true]
+      refine ⟨⟨h1.1, hd.2⟩, ?_, fun _ => trivial⟩
+      simp only [true_iff]
+      exact ⟨c, by simp, h1.2.mp hall⟩
+    · simp only [hall, if_false, skelL, Bool.and_eq_true]
+      refine ⟨⟨h1.1, h2.1⟩, ?_, ?_⟩
+      · rw [h2.2.1]
+        have hnc : ¬ covered c S := fun h => hall (h1.2.mpr h)
+        simp [hnc]
+      · intro h
+        apply h2.2.2
+        by_cases hne : ((csdS c.name (copyState c) (csdBlk c) S s d).2 != CopyRes.none) = true
+        · simp [hne] at h
+        · simpa [hne] using h
+end
+
+theorem csd_all (D : Sp) (d : St) (S : Sp) (s : St) (hd : skel D d = true) (hs : skel S s = true) :
+    (csd D d S s).2 = .all ↔ covered D S := by
+  unfold csd
+  rw [← cov_bridge]
+  exact (csdS_spec D.name (copyState D) (csdBlk D) (fun d => skel D d = true) (BD D)
+    (fun d s h => skel_copyState D d s h) (csdBlk_spec D) S s d hd hs).2
+
+
+mutual
+theorem skel_of_fits : ∀ (c : Sp) (st : St), fits c st = true → skel c st = true
+  | .compound nm cs, st, h => by
+    cases st with
+    | comp sts => simp only [fits, skel] at h ⊢; exact skelL_of_fitsL cs sts h
+    | _ => simp [fits] at h
+  | .real .., _, _ => by simp [skel]
+  | .so2 .., _, _ => by simp [skel]
+  | .so3 .., _, _ => by simp [skel]
+  | .time .., _, _ => by simp [skel]
+  | .discrete .., _, _ => by simp [skel]
+  | .wrapper .., _, _ => by simp [skel]
+theorem skelL_of_fitsL : ∀ (cs : List Sp) (sts : List St), fitsL cs sts = true → skelL cs sts = true
+  | [], [], _ => by simp [skelL]
+  | [], _ :: _, h => by simp [fitsL] at h
+  | _ :: _, [], h => by simp [fitsL] at h
+  | c :: cs, s :: ss, h => by
+    simp only [fitsL, skelL, Bool.and_eq_true] at h ⊢
+    exact ⟨skel_of_fits c s h.1, skelL_of_fitsL cs ss h.2⟩
+end
+
+/-- C2 for states allocated by their spaces -/
+theorem csd_all_fits (D : Sp) (d : St) (S : Sp) (s : St) (hd : fits D d = true) (hs : fits S s = true) :
+    (csd D d S s).2 = .all ↔ covered D S :=
+  csd_all D d S s (skel_of_fits D d hd) (skel_of_fits S s hs)
+
+
+/- Dropped (not proved): the `.none` half of C2,
+     `(csd D d S s).2 = .none ↔ ∀ n ∈ names S, n ∉ names D`.
+   As stated it is false: an empty compound source yields `.all` (witness below), so it needs the extra
+   hypothesis "no empty compound node in `S`"; the proof would repeat the `csdS_spec`/`csdBlk_spec` double
+   induction with a second component in `BlkSpec` (block code = `.none` iff no component of the destination
+   reports anything) and was left out for time. -/
+
+/-- an empty compound *source* is reported as `ALL_DATA_COPIED` whatever the destination: the
+"`.none` iff the name sets are disjoint" characterisation needs "no empty compound in the source" -/
+theorem csd_empty_compound_source_all :
+    (csd (.real 1 1) (.leaf [.f64 0]) (.compound 2 []) (.comp [])).2 = .all := by
+  decide
+
 
 end OmplModel.Copy
